@@ -1,9 +1,11 @@
 package props
 
 import (
+	"encoding/hex"
 	"fmt"
 	"math/big"
 	"reflect"
+	"strings"
 
 	"github.com/gcash/bchd/chaincfg"
 	"github.com/gcash/bchutil"
@@ -161,6 +163,41 @@ func c01hashCase(c *vf.Ctx, i int) {
 	}
 }
 
+// c01zeroRunCase: legacy addresses whose Base58 string contains ten '1'
+// characters (zero digits) in the middle of the number (constructed, about
+// 2e-18 per random hash): a decoder that folds digits in chunks meets an
+// all-zero chunk there.
+func c01zeroRunCase(c *vf.Ctx, i int) {
+	net := allNets[i%len(allNets)]
+	k := c01kinds[6+(i/len(allNets))%2] // LEGACY-P2PKH, LEGACY-P2SH
+	ver := net.P.LegacyPubKeyHashAddrID
+	if k.name == "LEGACY-P2SH" {
+		ver = net.P.LegacyScriptHashAddrID
+	}
+	body, ok := b58ZeroRunBody(c.R, []byte{ver}, 21, 7+c.R.Intn(12), -1)
+	if !ok {
+		c.Inc("zero_run_construction_failed")
+		return
+	}
+	h := body[1:]
+	a, err := k.mk(h, net.P)
+	if err != nil {
+		c.Failf("construct/"+k.name+"/error", "hash=%x: %v", h, err)
+		return
+	}
+	want := k.want(h, net.P)
+	c.Evals(1)
+	c.Inc("legacy_addresses_with_run_of_ten_zero_digits")
+	c.Nontrivial(vf.Mix(9, vf.HashString(want)))
+	if enc := a.EncodeAddress(); enc != want {
+		c.Failf("EncodeAddress/"+k.name+"/spec-string", "kind=%s net=%s hash=%x: EncodeAddress()=%q, specification prescribes %q", k.name, net.Name, h, enc, want)
+	}
+	c01checkDecoded(c, k.name, net, "exact", want, a, want, h, true)
+	if c.WantSample() {
+		c.Sample(map[string]string{"kind": k.name, "net": net.Name, "hash": hx(h), "string_with_zero_digit_run": want})
+	}
+}
+
 func c01scriptCase(c *vf.Ctx, i int) {
 	var script []byte
 	if i <= 520 {
@@ -250,6 +287,114 @@ func c01charsetPoint(r *vf.Rand) ref.Point {
 	}
 }
 
+// c01dualValid constructs compressed public keys whose 66-character hex form
+// is at the same time a CashAddr payload with a VALID checksum under the given
+// prefix (and zero padding bits): the decoder's cash-address attempt then fails
+// for the length, not for the checksum.  The checksum is affine over GF(2) in
+// the symbols, so a meet-in-the-middle over the two halves of x finds such
+// strings in about a second (random probability below 1e-16).
+func c01dualValid(prefix string, seed uint64, want int) []ref.Point {
+	const hexOK = "023456789acdef" // hex digits that are CashAddr characters
+	sym := func(ch byte) byte { return byte(strings.IndexByte(ref.CashCharset, ch)) }
+	pre := ref.CashPrefixExpand(prefix)
+	base := make([]byte, len(pre)+66)
+	copy(base, pre)
+	f0 := ref.CashPolymod(base)
+	contrib := func(pos int, ch byte) uint64 {
+		v := append([]byte{}, base...)
+		v[len(pre)+pos] = sym(ch)
+		return ref.CashPolymod(v) ^ f0
+	}
+	var tab [66][14]uint64
+	for p := 0; p < 66; p++ {
+		for k := 0; k < 14; k++ {
+			tab[p][k] = contrib(p, hexOK[k])
+		}
+	}
+	r := vf.NewRand(vf.Mix(seed, vf.HashString(prefix), 0xd0a1))
+	var out []ref.Point
+	for attempt := 0; attempt < 6 && len(out) < want; attempt++ {
+		odd := r.Bool()
+		head := f0 ^ contrib(0, '0') ^ contrib(1, '2')
+		if odd {
+			head = f0 ^ contrib(0, '0') ^ contrib(1, '3')
+		}
+		left := map[uint64][32]byte{}
+		for n := 0; n < 1<<20; n++ {
+			var a [32]byte
+			var syn uint64
+			for j := 0; j < 32; j++ {
+				a[j] = byte(r.Intn(14))
+				syn ^= tab[2+j][a[j]]
+			}
+			left[syn] = a
+		}
+		for n := 0; n < 1<<21 && len(out) < want; n++ {
+			var b [32]byte
+			syn := head
+			for j := 0; j < 32; j++ {
+				b[j] = byte(r.Intn(14))
+				if j == 31 { // last symbol: the two padding bits must be zero
+					for sym(hexOK[b[j]])&3 != 0 {
+						b[j] = byte(r.Intn(14))
+					}
+				}
+				syn ^= tab[34+j][b[j]]
+			}
+			a, ok := left[syn]
+			if !ok {
+				continue
+			}
+			hexs := make([]byte, 64)
+			for j := 0; j < 32; j++ {
+				hexs[j], hexs[32+j] = hexOK[a[j]], hexOK[b[j]]
+			}
+			xb, _ := hex.DecodeString(string(hexs))
+			if pt, err := ref.LiftX(new(big.Int).SetBytes(xb), odd); err == nil {
+				out = append(out, pt)
+			}
+		}
+	}
+	return out
+}
+
+type c01dual struct {
+	byPrefix map[string][]ref.Point
+}
+
+func c01dualInit(t vf.Tier, seed uint64) any {
+	d := &c01dual{byPrefix: map[string][]ref.Point{}}
+	for _, n := range allNets {
+		if _, ok := d.byPrefix[n.P.CashAddressPrefix]; !ok {
+			d.byPrefix[n.P.CashAddressPrefix] = c01dualValid(n.P.CashAddressPrefix, seed, 3)
+		}
+	}
+	return d
+}
+
+func c01pubkeyDualCase(c *vf.Ctx, i int) {
+	d := c.Shared.(*c01dual)
+	net := allNets[i%len(allNets)]
+	pts := d.byPrefix[net.P.CashAddressPrefix]
+	if len(pts) == 0 {
+		c.Inconclusive("no-dual-valid-key-constructed")
+		return
+	}
+	p := pts[(i/len(allNets))%len(pts)]
+	// sanity: the hex really is a checksum-valid cash payload for this prefix
+	hexs := hx(p.Compressed())
+	symb := make([]byte, 66)
+	for j := range symb {
+		symb[j] = byte(strings.IndexByte(ref.CashCharset, hexs[j]))
+	}
+	if ref.CashPolymod(append(ref.CashPrefixExpand(net.P.CashAddressPrefix), symb...)) != 0 {
+		c.Inconclusive("dual-valid-construction-wrong")
+		return
+	}
+	c.Inc("pubkeys_whose_hex_is_a_checksum_valid_cashaddr_payload")
+	c01pubkeyPoint(c, p, "dual-valid")
+}
+
 func c01pubkeyCharsetCase(c *vf.Ctx, i int) {
 	p := c01charsetPoint(c.R)
 	c.Inc("pubkeys_with_hex_inside_cashaddr_charset")
@@ -336,7 +481,7 @@ func init() {
 		ID:    "C01",
 		Title: "Every constructible address survives encode -> decode unchanged",
 		Rule: "stream hashes: directed hashes (all-zero, all-ones, 1..n-1 leading zero bytes, every single set bit, every single clear bit) then seeded random hashes, each under all 8 hash kinds x 6 nets x 4 renderings; " +
-			"stream scripts: script lengths 0..520 then random; stream pubkeys: scalars 1..16, n-16..n-1, leading-zero scalars, random, x 3 serialisations x 6 nets x 2 hex cases; stream pubkeys-cashaddr-charset: points whose compressed hex lies inside the CashAddr alphabet (the decoder first tries them as cash addresses). " +
+			"stream pubkeys-dual-valid: public keys constructed (meet in the middle on the affine checksum) so that their hex is also a checksum-valid CashAddr payload of the net; stream legacy-zero-digit-runs: legacy addresses constructed so that their Base58 string has ten zero digits in the middle; stream scripts: script lengths 0..520 then random; stream pubkeys: scalars 1..16, n-16..n-1, leading-zero scalars, random, x 3 serialisations x 6 nets x 2 hex cases; stream pubkeys-cashaddr-charset: points whose compressed hex lies inside the CashAddr alphabet (the decoder first tries them as cash addresses). " +
 			"A case is non-trivial and distinct per (kind, net, payload).",
 		Assumptions: []string{
 			"reference CashAddr / Base58Check encoders written from the specifications (self-tested on the specifications' vectors on every run)",
@@ -355,6 +500,8 @@ func init() {
 			{Name: "hashes", N: func(t vf.Tier) int { return directedHashCount(32) + t.Sz(20000, 300000) }, Run: c01hashCase},
 			{Name: "scripts", N: func(t vf.Tier) int { return 521 + t.Sz(5000, 100000) }, Run: c01scriptCase},
 			{Name: "pubkeys", N: func(t vf.Tier) int { return 64 + t.Sz(2000, 30000) }, Run: c01pubkeyCase},
+			{Name: "pubkeys-dual-valid", Init: c01dualInit, N: func(t vf.Tier) int { return t.Sz(36, 72) }, Run: c01pubkeyDualCase},
+			{Name: "legacy-zero-digit-runs", N: func(t vf.Tier) int { return t.Sz(600, 12000) }, Run: c01zeroRunCase},
 			{Name: "pubkeys-cashaddr-charset", N: func(t vf.Tier) int { return t.Sz(400, 6000) }, Run: c01pubkeyCharsetCase},
 		},
 	})
